@@ -195,3 +195,118 @@ def run_impl(drv, rc, tmo, table, dflt, ticks, own=True, retry_ms=None, tick=Non
     finally:
         clienting.socket = saved
         clienting.console.reinit(verbosity=saved_verb)
+
+
+class _NoSleepTime(object):
+    """clock double for Patron.serviceWhile: time.sleep returns at once (store time is what counts)"""
+    def sleep(self, s):
+        pass
+
+    def __getattr__(self, name):
+        import time as real_time
+        return getattr(real_time, name)
+
+
+def run_owner(drv, with_store, via, tmo, lag, dt, idle, first_lag=0, evented_ms=None):
+    """Owner-clock history (directed family of check.py).  The owner (Patron, non-TLS, or
+    TcpClientStack) constructs its tcp client ITSELF, WITHOUT a store/stamper argument
+    (with_store=False: the owner makes its own clock) or WITH one; reconnectable, timeout tmo ticks.
+    Everything goes through the owner's public surface: time is advanced ONLY through the owner's
+    clock object (`owner.store` for Patron, `owner.stamper` for the stack), service calls are
+    owner.serviceAll() / Patron.serviceWhile() / Patron.serviceWhileGen(); the far side cuts the
+    connection by letting the owner's own receive see b''.  The listener stays up: every socket
+    answers `lag` (first socket: first_lag) in-progress results, then 0.
+    Schedule: service until connected; `idle` paced calls; one call during which the peer closes;
+    then n = ceil(tmo/dt) + lag + 1 calls paced dt ticks apart (serviceWhile: dt must be 1).
+    returns info dict (observations after the cut window only through public attributes)"""
+    from ioflo.aio.tcp import clienting
+    from ioflo.base import storing
+    from ioflo.aio.http import clienting as hclienting
+    table = [["CINPROGRESS"] * first_lag + ["C0"]] + [["CINPROGRESS"] * lag + ["C0"] for _ in range(8)]
+    w = World(table, "C0")
+    saved, saved_time = clienting.socket, hclienting.time
+    saved_verb = clienting.console._verbosity
+    clienting.console.reinit(verbosity=0)
+    clienting.socket = FakeSocketModule(w)
+    hclienting.time = _NoSleepTime()
+    try:
+        kw = {}
+        given = storing.Store(stamp=0.0) if with_store else None
+        if drv == "Patron":
+            if with_store:
+                kw["store"] = given
+            owner = hclienting.Patron(hostname='127.0.0.1', port=HA0, reconnectable=True,
+                                      timeout=tmo * TICK, **kw)
+            if evented_ms is not None:
+                owner.respondent.evented = True
+                owner.respondent.retry = evented_ms
+            client = owner.connector
+            clock = owner.store
+        else:
+            from ioflo.aio.proto import stacking
+            if with_store:
+                kw["stamper"] = given
+            owner = stacking.TcpClientStack(ha=('127.0.0.1', HA0), timeout=tmo * TICK, **kw)
+            client = owner.handler
+            client.reconnectable = True      # createHandler has no reconnectable parameter
+            clock = owner.stamper
+        advance = getattr(clock, "advanceStamp", None) or clock.advance
+        same_clock = client.store is clock and (given is None or clock is given)
+
+        def connected():
+            return bool(client.connected) and not client.cutoff
+
+        calls = 0
+        client.reopen()
+        for _ in range(first_lag + 2):          # first connection
+            advance(dt * TICK)
+            owner.serviceAll()
+            calls += 1
+            if connected():
+                break
+        info = {"first_connected": connected(), "same_clock": same_clock}
+        for _ in range(idle):
+            advance(dt * TICK)
+            owner.serviceAll()
+            calls += 1
+        advance(dt * TICK)
+        w.cut_pending = True                     # the peer closes: the owner's own receive sees b''
+        owner.serviceAll()
+        w.cut_pending = False
+        info["cut_seen"] = bool(client.cutoff)
+        opens0 = w.nsock
+        n = -(-tmo // dt) + lag + 1
+        t0 = clock.stamp
+        connected_at = []
+        if via == "serviceAll":
+            for _ in range(n):
+                advance(dt * TICK)
+                owner.serviceAll()
+                connected_at.append(connected())
+        elif via == "serviceWhileGen":
+            gen = owner.serviceWhileGen(timeout=(n + 1) * dt * TICK)
+            for _ in range(n):
+                advance(dt * TICK)
+                next(gen)
+                connected_at.append(connected())
+            gen.close()
+        elif via == "serviceWhile":
+            assert dt == 1
+            advance(TICK)
+            owner.serviceWhile(timeout=n * TICK)     # n x (serviceAll; store.advanceStamp(0.125))
+            connected_at = [None] * (n - 1) + [connected()]
+        else:
+            raise ValueError(via)
+        info.update({"n": n, "connected_at": connected_at, "connected": connected(),
+                     "owner_clock_elapsed_ticks": int(round((clock.stamp - t0) / TICK)),
+                     "client_clock_elapsed_ticks": int(round((client.store.stamp - t0) / TICK)),
+                     "same_clock_after": client.store is clock,
+                     "opens_after_cut": w.nsock - opens0,
+                     "ca": addr(client.ca), "ha": addr(client.ha),
+                     "sid": client.cs.sid if client.cs is not None else -1,
+                     "lha": addr(owner.local.ha) if drv == "Stack" else -1})
+        return info
+    finally:
+        clienting.socket = saved
+        hclienting.time = saved_time
+        clienting.console.reinit(verbosity=saved_verb)
